@@ -96,6 +96,11 @@ class Render:
             s = '"' + t[1].replace("\\", "\\\\").replace('"', '\\"') + '"'
             if t[2] is None:
                 return s
+            e = static_end(t[2], self.shares)
+            if e[0] != 'v' and e != nil():
+                # partial strings with a non-list tail make the pinned version panic when
+                # copied/printed: spell it as a list
+                return self.pl(('lst', [('a', c) for c in t[1]], t[2]))
             tl = self.pl(t[2])
             v = self.fresh("P")
             self.prelude.append("partial_string(%s, %s, %s)" % (s, v, tl))
@@ -425,8 +430,11 @@ def mutate(rng, t, nv, p):
         return gen_term(rng, 1, nv)
     k = t[0]
     if k == 'v':
-        if rng.random() < 0.3:
+        r2 = rng.random()
+        if r2 < 0.3:
             return gen_term(rng, 2, nv)
+        if r2 < 0.5:
+            return gen_var(rng, nv)
         return t
     if k == 's':
         if rng.random() < 0.03:
@@ -546,7 +554,10 @@ def gen_pair(rng):
         return t1, t2, shares, "long"
     depth = rng.choice([1, 2, 2, 3, 3, 4])
     t1 = gen_term(rng, depth, nv)
-    t2 = mutate(rng, t1, nv, rng.choice([0.05, 0.1, 0.2, 0.35]))
+    t2 = mutate(rng, t1, nv, rng.choice([0.1, 0.2, 0.35, 0.5]))
+    if rng.random() < 0.3:
+        # both sides derived from a common ancestor: bindings in both directions
+        t1 = mutate(rng, t1, nv, rng.choice([0.1, 0.2, 0.35]))
     if rng.random() < 0.5:
         t1, t2 = t2, t1
     return t1, t2, shares, "derived"
@@ -570,81 +581,208 @@ def expand_shares(t, shares):
 
 CONFIGS = [("eq", "false"), ("eq", "true"), ("eq", "error"), ("uwoc", "false"),
            ("neq", "false"), ("neq", "true"), ("neq", "error")]
+HEAD_CONFIGS = [("head", "false"), ("head", "true"), ("head", "error")]
+GOALS = {"eq": "T1 = T2", "uwoc": "unify_with_occurs_check(T1, T2)", "neq": "T1 \\= T2"}
 
 
-def goal_text(pred):
-    if pred == "eq":
-        return "(T1 = T2 -> (T1 == T2 -> E = same ; E = differ), Res = y(E, R) ; Res = n(R))"
-    if pred == "uwoc":
-        return "(unify_with_occurs_check(T1, T2) -> (T1 == T2 -> E = same ; E = differ), Res = y(E, R) ; Res = n(R))"
-    return "(T1 \\= T2 -> Res = y(none, R) ; Res = n(R))"
+def config_text(k, pred, flag, show, goal=None):
+    """one configuration: set the flag, run the goal inside findall (bindings are undone
+    afterwards, the answer is a copy), catch errors."""
+    return ("set_prolog_flag(occurs_check, %s), "
+            "catch(findall(Res, (%s -> (T1 == T2 -> E = same ; E = differ), Res = y(E, %s) ; Res = n(R)), L%d), "
+            "error(Err%d, _), L%d = err(Err%d)), " % (flag, goal or GOALS[pred], "R" if show else "hidden", k, k, k, k))
 
 
-def goal_text_noprint(pred):
-    """for rational-tree results: do not copy/print the (cyclic) terms."""
-    if pred == "eq":
-        return "(T1 = T2 -> (T1 == T2 -> E = same ; E = differ), Res = y(E, hidden) ; Res = n(R))"
-    if pred == "uwoc":
-        return goal_text(pred)
-    return "(T1 \\= T2 -> Res = y(none, R) ; Res = n(R))"
+def has_rat(t):
+    return t[0] == 'q' or (t[0] == 's' and any(has_rat(a) for a in t[2]))
 
 
-def make_case(cid, t1, t2, shares, family, hide_cyclic):
+def plain_pl(t):
+    """plain tree -> Prolog text usable inside a clause head (no prelude goals)."""
+    k = t[0]
+    if k == 'v':
+        return t[1]
+    if k == 'i':
+        return str(t[1])
+    if k == 'f':
+        return repr(struct.unpack(">d", struct.pack(">Q", t[1]))[0])
+    if k == 'a':
+        return "[]" if t[1] == '[]' else q_atom(t[1])
+    if k == 's':
+        if t[1] == '.' and len(t[2]) == 2:
+            return "[%s|%s]" % (plain_pl(t[2][0]), plain_pl(t[2][1]))
+        return "%s(%s)" % (q_atom(t[1]), ",".join(plain_pl(a) for a in t[2]))
+    raise ValueError(t)
+
+
+def static_end(t, shares):
+    """the syntactic end of a list-like abstract term."""
+    while True:
+        if t is None:
+            return nil()
+        if t[0] in ('str', 'lst'):
+            t = t[2]
+        elif t[0] == 'sh':
+            t = shares[t[1]]
+        elif t[0] == 's' and t[1] == '.' and len(t[2]) == 2:
+            t = t[2][1]
+        else:
+            return t
+
+
+def subst_tree(t, m):
+    if t[0] == 'v':
+        return m.get(t[1], t)
+    if t[0] == 's':
+        return ('s', t[1], [subst_tree(a, m) for a in t[2]])
+    return t
+
+
+def list_end(t):
+    while t[0] == 's' and t[1] == '.' and len(t[2]) == 2:
+        t = t[2][1]
+    return t
+
+
+def is_char(t):
+    return t[0] == 'a' and len(t[1]) == 1
+
+
+def has_char_atom_tail(t):
+    """a cons cell whose head is a one-char atom and whose tail is an atom other than []:
+    the pinned version's library answer conversion panics on such terms when they are stored
+    as partial strings (not a unification matter), so they are never printed."""
+    st = [t]
+    while st:
+        x = st.pop()
+        if x[0] == 's':
+            if x[1] == '.' and len(x[2]) == 2 and is_char(x[2][0]) and x[2][1][0] == 'a' and x[2][1][1] != '[]':
+                return True
+            st.extend(x[2])
+    return False
+
+
+def unprintable(mv):
+    return mv.startswith("ok ") and has_char_atom_tail(parse_canon(mv.split(" ", 2)[2]))
+
+
+def sanitize(t, shares):
+    """inputs never contain a char list ending in a non-[] atom (see has_char_atom_tail):
+    such an end is replaced by the integer 0."""
+    k = t[0]
+    if k == 's':
+        a = [sanitize(x, shares) for x in t[2]]
+        if t[1] == '.' and len(a) == 2 and is_char(a[0]) and a[1][0] == 'a' and a[1][1] != '[]':
+            a[1] = ('i', 0)
+        return ('s', t[1], a)
+    if k in ('str', 'lst'):
+        tl = None if t[2] is None else sanitize(t[2], shares)
+        if k == 'str':
+            last_char = len(t[1]) > 0
+            el = t[1]
+        else:
+            el = [sanitize(e, shares) for e in t[1]]
+            last_char = len(el) > 0 and is_char(el[-1])
+        if tl is not None and last_char:
+            e = static_end(tl, shares) if tl[0] in ('str', 'lst', 'sh') else tl
+            if tl[0] == 'a' and tl[1] != '[]':
+                tl = ('i', 0)
+            elif tl[0] == 'sh' and e[0] == 'a' and e[1] != '[]':
+                tl = ('i', 0)
+        if tl is not None and not el:
+            return tl
+        return (k, el, tl)
+    return t
+
+
+def make_case(cid, t1, t2, shares, family, hide, head=False):
     rd = Render(shares)
     p1, p2 = rd.pl(t1), rd.pl(t2)
     allv = VARS + BYS
     extra = "[" + ",".join(allv) + "]"
     pre = "".join(g + ", " for g in rd.prelude)
     e1, e2 = expand(t1, shares), expand(t2, shares)
-    ex = ('v', 'dummy')
-    tl = nil()
+    ex = nil()
     for v in reversed(allv):
-        tl = cons(('v', v), tl)
-    ex = tl
+        ex = cons(('v', v), ex)
+    head = head and not has_rat(e2)
+    configs = CONFIGS + (HEAD_CONFIGS if head else [])
+    hgoal = "c10h_%s([%s], T1)" % (cid, ",".join(allv))
+    body = "".join(config_text(k, pred, flag,
+                               not (hide and flag == "false" and pred in ("eq", "head")) and not (hide == "all" and pred != "neq"),
+                               hgoal if pred == "head" else None)
+                   for k, (pred, flag) in enumerate(configs))
+    q = ("%sT1 = %s, T2 = %s, R = r(T1, T2, %s), %sset_prolog_flag(occurs_check, false), "
+         "current_prolog_flag(occurs_check, F)." % (pre, p1, p2, extra, body))
     impl = ["Q\t%s_use\t1\tuse_module(library(iso_ext))." % cid]
-    for pred, flag in CONFIGS:
-        g = goal_text_noprint(pred) if (hide_cyclic and flag == "false") else goal_text(pred)
-        q = ("set_prolog_flag(occurs_check, %s), "
-             "catch(findall(Res, (%sT1 = %s, T2 = %s, R = r(T1, T2, %s), %s), L), error(Err, _), L = err(Err)), "
-             "set_prolog_flag(occurs_check, false), current_prolog_flag(occurs_check, F)."
-             % (flag, pre, p1, p2, extra, g))
-        impl.append("Q\t%s_%s_%s\t2\t%s" % (cid, pred, flag, q))
+    if head:
+        # compiled head unification: the clause head carries t2 and the variable list, so that the
+        # clause's variables are identified with the query's before t2 meets T1
+        impl.append("L\t%s_ld\tuser\tc10h_%s([%s,_,_], %s)." % (cid, cid, ",".join(VARS), plain_pl(e2)))
+    impl.append("Q\t%s\t2\t%s" % (cid, q))
     model = ["unify\t%s\t%s\t%s\t%s" % (cid, canon(e1), canon(e2), canon(ex))]
     return {"id": cid, "family": family, "t1": canon(e1), "t2": canon(e2), "extra": canon(ex),
-            "prolog": "T1 = %s, T2 = %s" % (p1, p2), "prelude": rd.prelude,
-            "impl": impl, "model": model}
+            "prolog": "%sT1 = %s, T2 = %s" % (pre, p1, p2), "hide": hide,
+            "configs": [list(x) for x in configs], "impl": impl, "model": model}
 
 
-ANS_RE = re.compile(r"^\{(?:Err=.*,)?F='false',L=(.*)\}$")
+def parse_bindings(res):
+    """'{A=term,B=term}' -> dict name -> tree"""
+    p = P(res)
+    assert p.peek() == "{"
+    p.i += 1
+    out = {}
+    if p.peek() == "}":
+        return out
+    while True:
+        m = re.compile(r"[A-Za-z_][A-Za-z0-9_]*").match(p.s, p.i)
+        name = m.group(0)
+        p.i = m.end()
+        assert p.s[p.i] == "="
+        p.i += 1
+        out[name] = p.term()
+        c = p.s[p.i]
+        p.i += 1
+        if c == "}":
+            assert p.i == len(p.s)
+            return out
+        assert c == ","
 
 
-def parse_impl(res):
-    """-> ('y'|'n', E, term|None) | ('err', text) | ('bad', text)"""
+def parse_impl(res, nconf):
+    """-> list over CONFIGS of ('y'|'n', E, term) | ('err', term) | ('bad', text); or a single
+    ('bad', text) when the whole answer is unusable."""
     if res is None:
         return ('bad', 'missing')
-    first = res.split(" ;; ")[0]
-    m = ANS_RE.match(first)
-    if not m or " ;; " in res and res.split(" ;; ")[1:] not in (["false"], []):
+    parts = res.split(" ;; ")
+    if len(parts) > 2 or (len(parts) == 2 and parts[1] != "false") or not parts[0].startswith("{"):
         return ('bad', res[:300])
-    body = m.group(1)
     try:
-        t = parse_canon(body)
-    except Exception as x:  # noqa
+        b = parse_bindings(parts[0])
+    except Exception:  # noqa
         return ('bad', "unparsable answer %s" % res[:300])
-    if t[0] == 's' and t[1] == 'err' and len(t[2]) == 1:
-        return ('err', t[2][0])
-    # a one-element list
-    if t[0] == 's' and t[1] == '.' and t[2][1] == nil():
-        r = t[2][0]
-        if r[0] == 's' and r[1] == 'y' and len(r[2]) == 2:
-            e = r[2][0][1] if r[2][0][0] == 'a' else '?'
-            return ('y', e, r[2][1])
-        if r[0] == 's' and r[1] == 'n' and len(r[2]) == 1:
-            return ('n', None, r[2][0])
-    return ('bad', res[:300])
+    if b.get("F") != ('a', 'false'):
+        return ('bad', "occurs_check flag not restored: %s" % (b.get("F"),))
+    out = []
+    for k in range(nconf):
+        t = b.get("L%d" % k)
+        r = ('bad', "no usable result for configuration %d: %s" % (k, t))
+        if t is None:
+            pass
+        elif t[0] == 's' and t[1] == 'err' and len(t[2]) == 1:
+            r = ('err', t[2][0])
+        elif t[0] == 's' and t[1] == '.' and t[2][1] == nil():
+            x = t[2][0]
+            if x[0] == 's' and x[1] == 'y' and len(x[2]) == 2 and x[2][0][0] == 'a':
+                r = ('y', x[2][0][1], x[2][1])
+            elif x[0] == 's' and x[1] == 'n' and len(x[2]) == 1:
+                r = ('n', None, x[2][0])
+        out.append(r)
+    return out
 
 
 REP_ERR = ('s', 'representation_error', [('a', 'term')])
+HIDDEN = ('a', 'hidden')
 
 
 def shape_key(c):
@@ -655,11 +793,11 @@ def shape_key(c):
                 return "%s/%d" % (t[1], len(t[2]))
             return "%s(%s)" % (t[1], ",".join(sk(a, d - 1) for a in t[2]))
         return {'v': 'V', 'i': 'int', 'q': 'rat', 'f': 'flt', 'a': 'atm'}[t[0]]
-    return sk(parse_canon(c["t1"]), 2) + " = " + sk(parse_canon(c["t2"]), 2)
+    return (sk(parse_canon(c["t1"]), 2) + " = " + sk(parse_canon(c["t2"]), 2))[:160]
 
 
 def judge(c, impl, model):
-    """returns list of (kind, sig, detail)."""
+    """returns (list of (kind, sig, detail), model outcome)."""
     out = []
     cid = c["id"]
     mv = model.get(cid, "missing")
@@ -675,10 +813,14 @@ def judge(c, impl, model):
     rt = None
     if mo == "cyclic":
         rt = rt_unifiable(orig[2][0], orig[2][1])
-    for pred, flag in CONFIGS:
-        res = parse_impl(impl.get("%s_%s_%s" % (cid, pred, flag)))
+    configs = [tuple(x) for x in c.get("configs", CONFIGS)]
+    results = parse_impl(impl.get(cid), len(configs))
+    if isinstance(results, tuple):
+        sig = {"family": "unify", "pred": "all", "flag": "all", "model": mo, "problem": "answer",
+               "t1": c["t1"][:120], "t2": c["t2"][:120], "shape": shape_key(c)}
+        return [("violation", sig, "unexpected answer for the whole case: %s" % results[1])], mo
+    for (pred, flag), res in zip(configs, results):
         oc = (pred == "uwoc") or flag in ("true", "error")
-        # expected
         if mo == "ok":
             exp = "unify"
         elif mo == "clash":
@@ -689,8 +831,15 @@ def judge(c, impl, model):
             exp = "error"
         else:
             exp = "fail"
+        if pred == "head" and flag == "error" and mo != "ok":
+            # compiled head unification visits the argument pairs in another order (nested
+            # arguments last), so "cyclic binding first" / "clash first" may swap
+            exp = "error-or-fail"
         prob = None
-        if res[0] == 'bad':
+        if exp == "error-or-fail":
+            if not ((res[0] == 'err' and res[1] == REP_ERR) or (res[0] == 'n' and variant(res[2], orig))):
+                prob = ("success", "expected failure or representation_error(term), got %s" % (res[:2],))
+        elif res[0] == 'bad':
             prob = ("answer", "unexpected answer %s" % (res[1],))
         elif res[0] == 'err':
             if exp != "error":
@@ -715,7 +864,7 @@ def judge(c, impl, model):
             elif res[0] == 'y':
                 if res[1] != "same":
                     prob = ("not-identical", "T1 == T2 does not hold after successful unification")
-                elif exp == "unify" and not variant(res[2], mterm):
+                elif exp == "unify" and res[2] != HIDDEN and not variant(res[2], mterm):
                     prob = ("binding", "bindings differ from the most general unifier: impl %s" % (res[2],))
             elif res[0] == 'n' and not variant(res[2], orig):
                 prob = ("binding", "failed unification left bindings behind")
@@ -752,6 +901,7 @@ def directed_cases():
         (('str', "abc", None), ('lst', [A, B], C)), (('lst', [A, B], C), ('str', "abc", None)),
         (('str', "abc", None), ('str', "abc", None)), (('str', "abc", None), ('str', "abd", None)),
         (('str', "abc", None), nil()), (('str', "abc", A), A), (A, ('str', "abc", A)),
+        (('str', "ab", A), ('lst', [('a', 'a'), ('a', 'b')], ('a', 'x'))),
         (('lst', [A], A), ('lst', [B], B)), (('lst', [A, B], None), ('lst', [B, A], None)),
         (f(A), g(A)), (f(A), f(A, A)), (f(A, A), f(B)), (('a', 'f'), f(A)), (('a', '[]'), ('lst', [A], None)),
         (('s', '.', [A, B]), ('lst', [('i', 1)], None)), (('lst', [('i', 1)], None), ('s', '.', [A, B])),
@@ -762,52 +912,58 @@ def directed_cases():
 def run(ctx):
     rng, tier = ctx["rng"], ctx["tier"]
     rep = diff.replay_case(ctx)
-    abstract = []
     if rep is not None:
         cases = rep
     else:
         cases = diff.load_corpus("C10")
-        n = 1400 if tier == "quick" else 60000
+        n = 3000 if tier == "quick" else 120000
         pairs = directed_cases() + [gen_pair(rng) for _ in range(n)]
-        # first pass on the model only, to learn which pairs leave finite terms
-        pre = [make_case("c%d" % i, t1, t2, sh, fam, False) for i, (t1, t2, sh, fam) in enumerate(pairs)]
+        pairs = [(sanitize(a, {k: sanitize(v, sh) for k, v in sh.items()}),
+                  sanitize(b, {k: sanitize(v, sh) for k, v in sh.items()}),
+                  {k: sanitize(v, sh) for k, v in sh.items()}, fam) for a, b, sh, fam in pairs]
+        # first pass on the model only: which pairs leave finite terms / give unprintable results
+        heads = [i < 60 or rng.random() < 0.3 for i in range(len(pairs))]
+        pre = [make_case("c%d" % i, t1, t2, sh, fam, False, heads[i]) for i, (t1, t2, sh, fam) in enumerate(pairs)]
         mres = core.run_model([l for c in pre for l in c["model"]])
-        for i, (t1, t2, sh, fam) in enumerate(pairs):
-            cid = "c%d" % i
-            cases.append(make_case(cid, t1, t2, sh, fam, mres.get(cid) == "cyclic"))
+        for c0, (t1, t2, sh, fam), hd in zip(pre, pairs, heads):
+            mv = mres.get(c0["id"], "")
+            hide = "all" if unprintable(mv) else ("cyclic" if mv == "cyclic" else False)
+            cases.append(make_case(c0["id"], t1, t2, sh, fam, hide, hd) if hide else c0)
     impl, model = diff.run_cases(cases)
     findings = []
     agree = 0
-    outcomes = {"ok": 0, "clash": 0, "cyclic": 0, "model-bad": 0}
+    outcomes = {"ok": 0, "clash": 0, "cyclic": 0}
     fam_count = {}
     distinct = set()
     nbind_hist = {}
-    evals = 0
+    hidden = 0
     for c in cases:
-        evals += len(c["impl"]) - 1
         probs, mo = judge(c, impl, model)
         outcomes[mo] = outcomes.get(mo, 0) + 1
         fam_count[c.get("family", "?")] = fam_count.get(c.get("family", "?"), 0) + 1
         mv = model.get(c["id"], "")
         nb = int(mv.split(" ")[1]) if mv.startswith("ok ") else -1
-        nbind_hist[str(min(nb, 8))] = nbind_hist.get(str(min(nb, 8)), 0) + 1
+        if nb >= 0:
+            nbind_hist[str(min(nb, 8))] = nbind_hist.get(str(min(nb, 8)), 0) + 1
+        if c.get("hide") == "all":
+            hidden += 1
         if mo in ("clash", "cyclic") or nb >= 1:
             distinct.add((c["t1"], c["t2"]))
         if rep is not None:
             print("replay %s" % c.get("prolog"))
             print("  model: %s" % mv)
-            for l in c["impl"][1:]:
-                i = l.split("\t")[1]
-                print("  impl %s: %s" % (i, impl.get(i)))
+            print("  impl : %s" % impl.get(c["id"]))
+            for kind, sig, detail in probs:
+                print("  PROBLEM %s/%s: %s" % (sig.get("pred"), sig.get("flag"), detail))
         if not probs:
             agree += 1
         for kind, sig, detail in probs:
-            findings.append(core.Finding(kind, sig, detail,
-                                         {k: c[k] for k in ("id", "family", "t1", "t2", "extra", "prolog", "prelude", "impl", "model")}))
+            findings.append(core.Finding(kind, sig, detail, {k: c.get(k) for k in (
+                "id", "family", "t1", "t2", "extra", "prolog", "hide", "configs", "impl", "model")}))
     return {
-        "evaluations": evals,
+        "evaluations": sum(len(c.get("configs", CONFIGS)) for c in cases),
         "distinct_nontrivial": len(distinct),
-        "rule": "term pairs over <=6 shared variables, atoms, small/boundary/big integers (literal and run-time computed), floats, rationals, strings / partial strings / char lists / partial lists in several spellings, compounds, shared sub-structures, long lists and deep nesting; partner term derived by mutation (mostly unifiable, some clashes, some cyclic); 7 configurations (=/2 x 3 flags, unify_with_occurs_check/2, \\=/2 x 3 flags) per pair; non-trivial = at least one binding, a clash or a cyclic binding; distinct by the pair of terms",
+        "rule": "term pairs over <=6 shared variables, atoms, small/boundary/big integers (literal and run-time computed), floats, rationals, strings / partial strings / char lists / partial lists in several spellings, compounds, shared sub-structures, long lists and deep nesting; partner term derived by mutation (mostly unifiable, some clashes, some cyclic); 7 configurations (=/2 x 3 flags, unify_with_occurs_check/2, \\=/2 x 3 flags) per pair, run in one query; non-trivial = at least one binding, a clash or a cyclic binding; distinct by the pair of terms",
         "samples": [c["prolog"] for c in cases[:2]] + [c["prolog"] for c in cases[-4:]],
         "traces_validated_against_impl": agree,
         "disagreements_checked": len(cases) - agree,
@@ -815,6 +971,7 @@ def run(ctx):
         "model_outcomes": outcomes,
         "families": fam_count,
         "bindings_histogram": nbind_hist,
+        "results_not_printed_pstr_atom_tail": hidden,
         "exhaustive": False,
         "findings": findings,
     }
